@@ -81,7 +81,9 @@ func intsInRange(v ref.V) bool {
 
 // wellFormed returns "" or the first violated clause of W.
 func wellFormed(t token.Token, wantTag string) string {
-	inRange := func(v ref.V) bool { return v.K == ref.KNull || (v.K == ref.KInt && v.I <= ref.MaxSafe && v.I >= -ref.MaxSafe) }
+	inRange := func(v ref.V) bool {
+		return v.K == ref.KNull || (v.K == ref.KInt && v.I <= ref.MaxSafe && v.I >= -ref.MaxSafe)
+	}
 	f := gen.Fields(t)
 	get := func(k string) ref.V { v, _ := f.Get(k); return v }
 	switch x := t.(type) {
@@ -249,7 +251,7 @@ func c10Mutations(typ string, base ref.V) []payMut {
 		oor("pol", "bad-selector", ref.List(ref.List(ref.Str("=="), ref.Str("a"), ref.Int(1))), true)
 	} else {
 		oor("args", "int=2^53", ref.Map(ref.E("a", ref.Int(1<<53))), true)
-		oor("args", "nested-int=-2^53", ref.Map(ref.E("a", ref.List(ref.Map(ref.E("b", ref.Int(-(1 << 53))))))), true)
+		oor("args", "nested-int=-2^53", ref.Map(ref.E("a", ref.List(ref.Map(ref.E("b", ref.Int(-(1<<53))))))), true)
 		oor("args", "uint=2^64-1", ref.Map(ref.E("a", ref.Uint(math.MaxUint64))), true)
 		oor("args", "int=2^53-1", ref.Map(ref.E("a", ref.Int(ref.MaxSafe))), false)
 		oor("prf", "list-of-ints", ref.List(ref.Int(1)), true)
